@@ -54,8 +54,8 @@ Proof. unfold body_of. rewrite fold_left_app. reflexivity. Qed.
 (* ---------- updates of function objects ---------- *)
 Definition keeps (f : obj -> obj) : Prop :=
   forall o, ob_name (f o) = ob_name o /\ ob_function (f o) = ob_function o /\ ob_tentative (f o) = ob_tentative o
-            /\ ob_rel (f o) = ob_rel o /\ ob_init (f o) = ob_init o /\ ob_static (f o) = ob_static o /\ ob_inline (f o) = ob_inline o.
-Lemma keeps_redeclare hb : keeps (redeclare hb). Proof. intros o. repeat split. Qed.
+            /\ ob_rel (f o) = ob_rel o /\ ob_init (f o) = ob_init o /\ ob_inline (f o) = ob_inline o.
+Lemma keeps_redeclare fst hb sc il : keeps (redeclare fst hb sc il). Proof. intros o. repeat split. Qed.
 Lemma keeps_set_body r b : keeps (set_body r b). Proof. intros o. repeat split. Qed.
 Lemma keeps_set_live b : keeps (set_live b). Proof. intros o. repeat split. Qed.
 
@@ -104,32 +104,32 @@ Definition funrefs (isf : nat -> bool) (items : list bitem) : list nat :=
 Definition ubody (kt : nat -> bool * bool) (items : list bitem) : list rref :=
   flat_map (fun i => match i with BRef m => [if fst (kt m) then RFun m else RObj m (snd (kt m))] | _ => [] end) items.
 Definition urefs (body : list rref) : list rref := filter (fun r => match r with RAnon _ _ => false | _ => true end) body.
-Fixpoint body_anons (a : nat) (items : list bitem) : list obj :=
+Fixpoint body_anons (fn a : nat) (items : list bitem) : list obj :=
   match items with
   | [] => []
-  | BRef _ :: r => body_anons a r
-  | BStatic tl sz al arr hi :: r => anon_obj_of a tl hi sz al arr :: body_anons (S a) r
-  | BString sz :: r => anon_obj_of a false true sz 1 true :: body_anons (S a) r
+  | BRef _ :: r => body_anons fn a r
+  | BStatic tl sz al arr hi :: r => anon_obj_of a tl hi sz al arr (Some fn) :: body_anons fn (S a) r
+  | BString sz :: r => anon_obj_of a false true sz 1 true None :: body_anons fn (S a) r
   end.
 Definition is_anon_obj (o : obj) : bool :=
   match ob_name o with
   | Anon _ => negb (ob_function o) && negb (ob_tentative o) && match ob_rel o with None => true | Some _ => false end
   | User _ => false
   end.
-Lemma body_anons_anon a items : forall o, In o (body_anons a items) -> is_anon_obj o = true.
+Lemma body_anons_anon fn a items : forall o, In o (body_anons fn a items) -> is_anon_obj o = true.
 Proof.
   revert a. induction items as [|i r IH]; intros a o Ho; [contradiction|].
   destruct i; cbn [body_anons] in Ho; [eapply IH; exact Ho| |]; (destruct Ho as [<-|Ho]; [reflexivity|eapply IH; exact Ho]).
 Qed.
 Lemma urefs_app a b : urefs (a ++ b) = urefs a ++ urefs b. Proof. apply filter_app. Qed.
 
-Lemma parse_body_spec sc kt : (forall x k, In (x, k) sc -> k = kt x) ->
+Lemma parse_body_spec sc fn kt : (forall x k, In (x, k) sc -> k = kt x) ->
   forall items anon gs refs body, (forall m, In (BRef m) items -> In m (map fst sc)) ->
-  parse_body sc items anon gs refs body =
-    (rev (body_anons anon items) ++ gs, (anon + length (body_anons anon items))%nat,
+  parse_body sc fn items anon gs refs body =
+    (rev (body_anons fn anon items) ++ gs, (anon + length (body_anons fn anon items))%nat,
      refs ++ funrefs (fun m => fst (kt m)) items,
-     snd (parse_body sc items anon gs refs body))
-  /\ urefs (snd (parse_body sc items anon gs refs body)) = urefs body ++ ubody kt items.
+     snd (parse_body sc fn items anon gs refs body))
+  /\ urefs (snd (parse_body sc fn items anon gs refs body)) = urefs body ++ ubody kt items.
 Proof.
   intros Hsc. induction items as [|i r IH]; intros anon gs refs body Hin.
   - cbn. rewrite !app_nil_r, Nat.add_0_r. split; reflexivity.
@@ -142,10 +142,10 @@ Proof.
       * destruct (IH anon gs refs (body ++ [RObj m t]) Hin') as [E1 E2]. rewrite E1 at 1. cbn [snd]. split.
         -- reflexivity.
         -- rewrite E2, urefs_app. cbn. rewrite <- app_assoc. reflexivity.
-    + destruct (IH (S anon) (anon_obj_of anon tl hi sz al arr :: gs) refs (body ++ [RAnon anon tl]) Hin') as [E1 E2]. rewrite E1 at 1. cbn [snd]. split.
+    + destruct (IH (S anon) (anon_obj_of anon tl hi sz al arr (Some fn) :: gs) refs (body ++ [RAnon anon tl]) Hin') as [E1 E2]. rewrite E1 at 1. cbn [snd]. split.
       * cbn [rev length]. rewrite <- app_assoc. cbn [app]. f_equal. f_equal. f_equal. lia.
       * rewrite E2, urefs_app. cbn. rewrite app_nil_r. reflexivity.
-    + destruct (IH (S anon) (anon_obj_of anon false true sz 1 true :: gs) refs (body ++ [RAnon anon false]) Hin') as [E1 E2]. rewrite E1 at 1. cbn [snd]. split.
+    + destruct (IH (S anon) (anon_obj_of anon false true sz 1 true None :: gs) refs (body ++ [RAnon anon false]) Hin') as [E1 E2]. rewrite E1 at 1. cbn [snd]. split.
       * cbn [rev length]. rewrite <- app_assoc. cbn [app]. f_equal. f_equal. f_equal. lia.
       * rewrite E2, urefs_app. cbn. rewrite app_nil_r. reflexivity.
 Qed.
@@ -193,16 +193,30 @@ Definition isf (m : nat) : bool := fst (kt m).
 Definition first_static (d1 : fundecl) : bool := sc_eqb (fd_sc d1) SC_static || (fd_inl d1 && negb (sc_eqb (fd_sc d1) SC_extern)).
 
 (* at_: a file-scope initializer seen so far names the function *)
-Definition flagsA (g : nat) (d1 : fundecl) (defd at_ : bool) (fo : obj) : Prop :=
-  ob_name fo = User g /\ ob_function fo = true /\ ob_static fo = first_static d1 /\ ob_inline fo = fd_inl d1
+(* is_inline_def / is_static after all declarations so far (85373f4) *)
+Definition clears (d : fundecl) : bool := clears_inline_def (fd_sc d) (fd_inl d).
+Definition idef0 (d1 : fundecl) : bool := first_static d1 && negb (sc_eqb (fd_sc d1) SC_static).
+Definition idef_of (s : list fundecl) : bool := match s with [] => false | d1 :: r => idef0 d1 && negb (existsb clears r) end.
+Definition static_of (s : list fundecl) : bool :=
+  match s with [] => false | d1 :: r => if idef0 d1 then negb (existsb clears r) else first_static d1 end.
+Definition inline_of (s : list fundecl) : bool := match s with [] => false | d1 :: _ => fd_inl d1 end.
+Lemma static_of_one d : static_of [d] = first_static d.
+Proof. unfold static_of, idef0. cbn [existsb negb]. destruct (first_static d), (sc_eqb (fd_sc d) SC_static); reflexivity. Qed.
+Lemma idef_of_snoc d1 r d : idef_of ((d1 :: r) ++ [d]) = if idef_of (d1 :: r) && clears d then false else idef_of (d1 :: r).
+Proof. cbn [app idef_of]. rewrite existsb_app. cbn [existsb]. rewrite orb_false_r. destruct (idef0 d1), (existsb clears r), (clears d); reflexivity. Qed.
+Lemma static_of_snoc d1 r d : static_of ((d1 :: r) ++ [d]) = if idef_of (d1 :: r) && clears d then false else static_of (d1 :: r).
+Proof. cbn [app static_of idef_of]. rewrite existsb_app. cbn [existsb]. rewrite orb_false_r. destruct (idef0 d1), (existsb clears r), (clears d), (first_static d1); reflexivity. Qed.
+
+Definition flagsA (g : nat) (s : list fundecl) (defd at_ : bool) (fo : obj) : Prop :=
+  ob_name fo = User g /\ ob_function fo = true /\ ob_static fo = static_of s /\ ob_inline fo = inline_of s
   /\ ob_definition fo = defd /\ ob_root fo = negb (ob_static fo && ob_inline fo) || at_
-  /\ ob_tentative fo = false /\ ob_rel fo = None /\ ob_init fo = false.
+  /\ ob_tentative fo = false /\ ob_rel fo = None /\ ob_init fo = false /\ ob_inline_def fo = idef_of s.
 Definition all_funrefs (s : list fundecl) : list nat :=
   flat_map (fun d => match fd_body d with Some b => funrefs isf b | None => [] end) s.
 Definition fun_flags (tk : nat -> bool) (g : nat) (s : list fundecl) (fo : obj) : Prop :=
   match s with
   | [] => False
-  | d1 :: _ => flagsA g d1 (existsb has_body s) (tk g) fo /\ ob_refs fo = all_funrefs s /\ urefs (ob_body fo) = ubody kt (body_of s)
+  | d1 :: _ => flagsA g s (existsb has_body s) (tk g) fo /\ ob_refs fo = all_funrefs s /\ urefs (ob_body fo) = ubody kt (body_of s)
   end.
 Definition fun_inv (tk : nat -> bool) (g : nat) (s : list fundecl) (l : list obj) : Prop :=
   match s with [] => l = [] | _ :: _ => exists fo, l = [fo] /\ fun_flags tk g s fo end.
@@ -355,7 +369,7 @@ Proof.
       * intros g Hg. apply Nat.eqb_neq in Hg. rewrite (Nat.eqb_sym t g), Hg. apply orb_false_r.
       * intros fo FF. unfold fun_flags in *. destruct (funseq t p) as [|d1 s'] eqn:Et; [exact FF|]. destruct FF as (FA & FR & FB).
         split; [|split; assumption].
-        destruct FA as (A1 & A2 & A3 & A4 & A5 & A6 & A7 & A8 & A9). unfold flagsA. cbn [set_root ob_name ob_function ob_static ob_inline ob_definition ob_root ob_tentative ob_rel ob_init].
+        destruct FA as (A1 & A2 & A3 & A4 & A5 & A6 & A7 & A8 & A9 & A10). unfold flagsA. cbn [set_root ob_name ob_function ob_static ob_inline ob_definition ob_root ob_tentative ob_rel ob_init ob_inline_def].
         repeat split; try assumption. rewrite Nat.eqb_refl, !orb_true_r. reflexivity.
     + apply Hplain; [cbn [step]; rewrite Ei; fold al; fold sc; rewrite Hres; unfold kt; rewrite Eft, Hcur; reflexivity|].
       intros g Hg. rewrite addr_taken_snoc, Ei. destruct (Nat.eqb_spec t g) as [->|]; [|rewrite orb_false_r; reflexivity].
@@ -364,8 +378,8 @@ Qed.
 
 Definition stage1 (st : pstate) (n : nat) (sc : sclass) (il hb : bool) : list obj * list (nat * (bool * bool)) :=
   match find_fun n (ps_globals st) with
-  | Some _ => (update_fun n (redeclare hb) (ps_globals st), ps_scope st)
-  | None => (redeclare hb (new_fun n sc il) :: ps_globals st, (n, (true, false)) :: ps_scope st)
+  | Some _ => (update_fun n (redeclare false hb sc il) (ps_globals st), ps_scope st)
+  | None => (redeclare true hb sc il (new_fun n sc il) :: ps_globals st, (n, (true, false)) :: ps_scope st)
   end.
 
 Lemma hd_error_nil {A} (l : list A) : hd_error l = None -> l = [].
@@ -383,7 +397,7 @@ Lemma stage1_spec p tk st n sc il fsz body : inv p tk st -> is_fun_name ds n = t
   /\ (forall g, g <> n -> filter (is_fun_named g) gs1 = filter (is_fun_named g) (ps_globals st))
   /\ (forall o, In o gs1 -> classified p o)
   /\ exists fo1, filter (is_fun_named n) gs1 = [fo1]
-       /\ flagsA n (hd d s) (existsb has_body (s ++ [d])) (tk n) fo1
+       /\ flagsA n (s ++ [d]) (existsb has_body (s ++ [d])) (tk n) fo1
        /\ ob_refs fo1 = all_funrefs s /\ urefs (ob_body fo1) = ubody kt (body_of s).
 Proof.
   intros I Hf Htk d hb s gs1 scope1.
@@ -394,17 +408,17 @@ Proof.
   - (* first declaration of n *)
     assert (Es : funseq n p = []) by (destruct (funseq n p); [reflexivity|destruct G2 as (fo & E & _); discriminate]).
     rewrite Es. cbn [hd app].
-    assert (Hn : is_fun_named n (redeclare hb (new_fun n sc il)) = true) by (unfold is_fun_named; cbn; apply Nat.eqb_refl).
+    assert (Hn : is_fun_named n (redeclare true hb sc il (new_fun n sc il)) = true) by (unfold is_fun_named; cbn; apply Nat.eqb_refl).
     repeat split.
     + intros m k [H|H]; [injection H as <- <-; symmetry; exact Hkt|apply (inv_s1 _ _ _ I); exact H].
     + rewrite map_app, in_app_iff. cbn. rewrite (inv_s2 _ _ _ I m). tauto.
     + rewrite map_app, in_app_iff. cbn. rewrite (inv_s2 _ _ _ I m). tauto.
     + intros q. cbn [filter]. unfold objP at 1. cbn. rewrite andb_false_r. reflexivity.
-    + intros g Hg. cbn [filter]. destruct (is_fun_named g (redeclare hb (new_fun n sc il))) eqn:E; [|reflexivity].
+    + intros g Hg. cbn [filter]. destruct (is_fun_named g (redeclare true hb sc il (new_fun n sc il))) eqn:E; [|reflexivity].
       exfalso. apply Hg. eapply is_fun_named_excl; eassumption.
     + intros o [<-|Ho]; [|apply (inv_cl _ _ _ I); exact Ho]. right. right. cbn. repeat split. exists n. reflexivity.
-    + exists (redeclare hb (new_fun n sc il)). cbn [filter]. rewrite Hn, El. split; [reflexivity|]. split; [|split; reflexivity].
-      unfold flagsA. rewrite (Htk Es). cbn. repeat split; rewrite ?orb_false_r; reflexivity.
+    + exists (redeclare true hb sc il (new_fun n sc il)). cbn [filter]. rewrite Hn, El. split; [reflexivity|]. split; [|split; reflexivity].
+      unfold flagsA. rewrite (Htk Es), static_of_one. unfold idef_of, idef0, first_static. cbn. repeat split; rewrite ?orb_false_r, ?andb_true_r; reflexivity.
   - (* redeclaration *)
     destruct (funseq n p) as [|d1 s'] eqn:Es; [discriminate|]. destruct G2 as (fo0 & E0 & (FA & FR & FB)). injection E0 as <- ->.
     cbn [hd].
@@ -415,12 +429,16 @@ Proof.
     + intros q. apply filter_obj_update. apply keeps_redeclare.
     + intros g Hg. rewrite filter_fun_update by apply keeps_redeclare. apply Nat.eqb_neq in Hg. rewrite Hg. reflexivity.
     + intros o Ho. unfold update_fun in Ho. apply in_map_iff in Ho as (o0 & <- & Ho0). apply classified_update; [apply keeps_redeclare|apply (inv_cl _ _ _ I); exact Ho0].
-    + exists (redeclare hb fo). rewrite filter_fun_update by apply keeps_redeclare. rewrite Nat.eqb_refl, El. split; [reflexivity|].
-      destruct FA as (A1 & A2 & A3 & A4 & A5 & A6 & A7 & A8 & A9). split; [|split; assumption].
-      unfold flagsA. cbn [redeclare ob_name ob_function ob_static ob_inline ob_definition ob_root ob_tentative ob_rel ob_init].
+    + exists (redeclare false hb sc il fo). rewrite filter_fun_update by apply keeps_redeclare. rewrite Nat.eqb_refl, El. split; [reflexivity|].
+      destruct FA as (A1 & A2 & A3 & A4 & A5 & A6 & A7 & A8 & A9 & A10). split; [|split; assumption].
+      assert (Hclr : negb false && ob_inline_def fo && clears_inline_def sc il = idef_of (d1 :: s') && clears d) by (rewrite A10; reflexivity).
+      unfold flagsA. cbn [redeclare ob_name ob_function ob_static ob_inline ob_definition ob_root ob_tentative ob_rel ob_init ob_inline_def].
+      rewrite Hclr, static_of_snoc, idef_of_snoc.
       repeat split; try assumption.
-      * rewrite A5. change (d1 :: s' ++ [d]) with ((d1 :: s') ++ [d]). rewrite existsb_app. cbn [existsb]. rewrite orb_false_r. reflexivity.
-      * rewrite A6. destruct (negb (ob_static fo && ob_inline fo)), (tk n); reflexivity.
+      * rewrite A3. reflexivity.
+      * rewrite A5. rewrite existsb_app. cbn [existsb]. rewrite orb_false_r. reflexivity.
+      * rewrite A6. destruct (idef_of (d1 :: s') && clears d), (ob_static fo), (ob_inline fo), (tk n); reflexivity.
+      * rewrite A10. reflexivity.
 Qed.
 
 Lemma step_fun_unfold st n sc il fsz body :
@@ -432,14 +450,14 @@ Lemma step_fun_unfold st n sc il fsz body :
   | None => mkPS gs1 scope1 (ps_anon st) (ps_cur st)
   | Some items =>
       let a := ps_anon st in
-      let gs2 := anon_obj_of (S a) false true fsz 1 true :: anon_obj_of a false true fsz 1 true :: gs1 in
-      let r := parse_body scope1 items (S (S a)) gs2 [] [] in
+      let gs2 := anon_obj_of (S a) false true fsz 1 true None :: anon_obj_of a false true fsz 1 true None :: gs1 in
+      let r := parse_body scope1 n items (S (S a)) gs2 [] [] in
       mkPS (update_fun n (set_body (snd (fst r)) (snd r)) (fst (fst (fst r)))) scope1 (snd (fst (fst r))) None
   end.
 Proof.
   cbn [step]. unfold stage1. destruct (find_fun n (ps_globals st)); cbn [fst snd]; destruct body as [items|]; try reflexivity.
-  - destruct (parse_body _ items _ _ [] []) as [[[g a] r] b]. reflexivity.
-  - destruct (parse_body _ items _ _ [] []) as [[[g a] r] b]. reflexivity.
+  - destruct (parse_body _ _ items _ _ [] []) as [[[g a] r] b]. reflexivity.
+  - destruct (parse_body _ _ items _ _ [] []) as [[[g a] r] b]. reflexivity.
 Qed.
 
 Lemma inv_step_fun p tk st n sc il fsz body :
@@ -463,16 +481,16 @@ Proof.
   destruct body as [items|].
   - (* definition *)
     set (a := ps_anon st).
-    set (gs2 := anon_obj_of (S a) false true fsz 1 true :: anon_obj_of a false true fsz 1 true :: gs1).
+    set (gs2 := anon_obj_of (S a) false true fsz 1 true None :: anon_obj_of a false true fsz 1 true None :: gs1).
     assert (Hitems : forall m, In (BRef m) items -> In m (map fst scope1)).
     { intros m Hm. apply S2. apply (Hrefs items m eq_refl Hm). }
-    destruct (parse_body_spec scope1 kt S1 items (S (S a)) gs2 [] [] Hitems) as [E1 E2].
-    set (r := parse_body scope1 items (S (S a)) gs2 [] []) in *.
-    assert (Eg : fst (fst (fst r)) = rev (body_anons (S (S a)) items) ++ gs2) by (rewrite E1; reflexivity).
+    destruct (parse_body_spec scope1 n kt S1 items (S (S a)) gs2 [] [] Hitems) as [E1 E2].
+    set (r := parse_body scope1 n items (S (S a)) gs2 [] []) in *.
+    assert (Eg : fst (fst (fst r)) = rev (body_anons n (S (S a)) items) ++ gs2) by (rewrite E1; reflexivity).
     assert (Er : snd (fst r) = funrefs isf items) by (rewrite E1; reflexivity).
     rewrite Eg, Er.
     assert (Hanon : forall P : obj -> bool, (forall o, is_anon_obj o = true -> P o = false) ->
-                    filter P (rev (body_anons (S (S a)) items) ++ gs2) = filter P gs1).
+                    filter P (rev (body_anons n (S (S a)) items) ++ gs2) = filter P gs1).
     { intros P HP. rewrite filter_app. rewrite (filter_none P (rev _)).
       - unfold gs2. cbn [filter app]. rewrite !HP by reflexivity. reflexivity.
       - intros o Ho. apply HP. apply in_rev in Ho. eapply body_anons_anon. exact Ho. }
@@ -486,10 +504,8 @@ Proof.
         assert (Hne : funseq n p ++ [d] <> []) by (destruct (funseq n p); discriminate).
         destruct (funseq n p ++ [d]) as [|d1 s1] eqn:Es; [contradiction|]. cbn [fun_inv].
         exists (set_body (funrefs isf items) (snd r) fo1). split; [reflexivity|].
-        assert (Hd1 : d1 = hd d (funseq n p)).
-        { destruct (funseq n p) as [|x l]; cbn in Es; injection Es as <- _; reflexivity. }
-        cbn [fun_flags]. subst d1. split; [|split].
-        -- destruct FA as (A1 & A2 & A3 & A4 & A5 & A6 & A7 & A8 & A9). unfold flagsA. cbn [set_body ob_name ob_function ob_static ob_inline ob_definition ob_root ob_tentative ob_rel ob_init]. repeat split; assumption.
+        cbn [fun_flags]. split; [|split].
+        -- destruct FA as (A1 & A2 & A3 & A4 & A5 & A6 & A7 & A8 & A9 & A10). unfold flagsA. cbn [set_body ob_name ob_function ob_static ob_inline ob_definition ob_root ob_tentative ob_rel ob_init ob_inline_def]. repeat split; assumption.
         -- cbn [set_body ob_refs]. rewrite FR, <- Es, all_funrefs_snoc. reflexivity.
         -- cbn [set_body ob_body]. rewrite E2. rewrite <- Es, body_of_app. reflexivity.
       * rewrite (proj2 (Nat.eqb_neq n g) (fun E => Hne (eq_sym E))), app_nil_r, (G2o g Hne). apply (inv_g2 _ _ _ I g).
@@ -507,9 +523,7 @@ Proof.
         assert (Hne : funseq n p ++ [d] <> []) by (destruct (funseq n p); discriminate).
         destruct (funseq n p ++ [d]) as [|d1 s1] eqn:Es; [contradiction|]. cbn [fun_inv].
         exists fo1. split; [reflexivity|].
-        assert (Hd1 : d1 = hd d (funseq n p)).
-        { destruct (funseq n p) as [|x l]; cbn in Es; injection Es as <- _; reflexivity. }
-        cbn [fun_flags]. subst d1. split; [exact FA|split].
+        cbn [fun_flags]. split; [exact FA|split].
         -- rewrite FR, <- Es, all_funrefs_snoc. unfold d. cbn [fd_body]. rewrite app_nil_r. reflexivity.
         -- rewrite FB. rewrite <- Es, body_of_app. reflexivity.
       * rewrite (proj2 (Nat.eqb_neq n g) (fun E => Hne (eq_sym E))), app_nil_r, (G2o g Hne). apply (inv_g2 _ _ _ I g).
